@@ -119,12 +119,14 @@ protected:
             // If the condition is satisfied, simply return
             // Otherwise, go to the next iteration and try a new random vector
             if (ortho_err < m_eps * fnorm)
-            {
 #ifdef SPECTRA_VERIF
+            {
                 SPECTRA_VERIF_FAC_HOOK("breakdown", *this, V.cols());
 #endif
                 return;
+#ifdef SPECTRA_VERIF
             }
+#endif
         }
 #ifdef SPECTRA_VERIF
         SPECTRA_VERIF_FAC_HOOK("breakdown-unresolved", *this, V.cols());
